@@ -104,11 +104,14 @@ def make_canary(text, linemap):
     labels = {}
     for n, (off, label) in enumerate(points):
         out.append(text[last:off])
-        out.append(' proof { assert(false); } /*CANARY %d*/ ' % n)
+        out.append(' proof { if verif_canary_choice(%d) { assert(false); } } /*CANARY %d*/ ' % (n, n))
         labels[n] = label
         last = off
     out.append(text[last:])
-    return ''.join(out), labels
+    res = ''.join(out)
+    # an uninterpreted choice keeps the canaries independent of one another (a failed assert is assumed afterwards)
+    res = res.replace('verus! {', 'verus! {\npub uninterp spec fn verif_canary_choice(n: int) -> bool;', 1)
+    return res, labels
 
 
 def run_verus(path, rlimit=None, extra=None, timeout=1800):
@@ -296,8 +299,8 @@ def run_unit(repo, unit, template, workdir, tier='quick'):
                             col = s.get('column_start', 0)
                             # nearest canary marker after the column
                             best = None
-                            for m2 in re.finditer(r'assert\(false\); \} /\*CANARY (\d+)\*/', seg):
-                                if m2.start() + 1 >= col - 8 and best is None:
+                            for m2 in re.finditer(r'assert\(false\); \} \} /\*CANARY (\d+)\*/', seg):
+                                if m2.start() + 1 >= col - 12 and best is None:
                                     best = int(m2.group(1))
                             if best is not None:
                                 failing.add(best)
